@@ -507,7 +507,7 @@ def _insert_nodes(source: str, additions: Collection[ast.AST]) -> str:
     Returns:
         str: Code with added asts.
     """
-    lines = source.splitlines(keepends=True)
+    lines = list(core.split_lines(source))  # Not str.splitlines(), which disagrees with ast linenos
 
     for node in sorted(additions, key=lambda n: n.lineno, reverse=True):
         addition = core.unparse(node)
